@@ -326,6 +326,10 @@ def write_shard(job) -> dict:
 def read_sources(data: bytes, limit: int):
     yield "raw", faultio.StallRaw(data, limit)
     yield "raw-chunk5", faultio.StallRaw(data, limit, chunk=5)
+    yield "raw-chunk1", faultio.StallRaw(data, limit, chunk=1)
+    yield "raw-chunk2", faultio.StallRaw(data, limit, chunk=2)
+    yield "buffered-chunk1", io.BufferedReader(faultio.StallRaw(data, limit, chunk=1))
+    yield "buffered-chunk2", io.BufferedReader(faultio.StallRaw(data, limit, chunk=2))
     yield "buffered", io.BufferedReader(faultio.StallRaw(data, limit))
     yield "buffered-chunk5", io.BufferedReader(faultio.StallRaw(data, limit, chunk=5))
     yield "seekable-buffered", io.BufferedReader(faultio.StallRaw(data, limit, seekable=True))
